@@ -1,48 +1,26 @@
-(* ReplProto.v — executable round-based model of kevo's WAL replication protocol as the code
-   behaves end to end (pkg/replication/primary.go, replica.go, batch.go, manager.go,
-   heartbeat.go; pkg/wal/wal.go observers and GetEntriesFrom; pkg/engine/storage/manager.go
-   rotateWAL).  Model only: the proofs are in ReplProtoProofs.v.
+(* ReplProtoBefore.v — the replication protocol of the PINNED tree (before f62340e, c7e8cb8,
+   5fc1d1b, cb2d442, 7f7e08d, 2996cf8), kept as a regression note: the model that was faithful
+   to that code, and the histories on which a connected replica never converged.  Each history
+   is a corpus case (corpus/C14/fixed-*.case) that failed on the pinned tree and passes now;
+   ReplProtoProofs.v proves that the repaired protocol (ReplProto.v) converges on every history.
+   Nothing outside this file depends on it.
 
-   What one tick is: one turn of the replica's state machine (replicationLoop) against the
-   primary.  The facts of the code the model is built from (read in the source, each one
-   reproduced on loopback by harness/c14.go):
-
-   P1  The primary follows the engine's WAL across log rotations (cb2d442: rotateWAL hands the
-       observers to the new WAL object and tells the primary, which reads sequence numbers and
-       entries from it; GetEntriesFrom reads every log file of the directory).  A flush of the
-       primary therefore has no effect on the protocol.  Before that the primary kept the WAL
-       object of its start and nothing written after the first flush reached any replica.
-   P2  getWALEntriesFromSequence(from): nothing if the log is empty or from is beyond it;
-       otherwise the entries with seq >= from of all files, cut after the first 100 entries but
-       never inside a sequence number (f62340e).                           [fetch, cut_fetch]
-   P3  StreamWAL(start): the replica sends start = the next number it expects; the primary
-       stores StartSequence = start and LastAckSequence = start-1 (7f7e08d), sends fetch(start)
-       once (sendInitialEntries), then every 100 ms, while the log has reached start, fetch(start)
-       again.  The replica never reaches its ACKNOWLEDGING state (processEntries moves on to
-       STREAMING_ENTRIES before the loop sees it), so LastAckSequence stays start-1.
-                                                                              [connect, poll]
-   P4  A single Put/Delete is pushed from inside wal.Append to the sessions whose StartSequence
-       is not above its number, as an uncompressed response of that one entry (2996cf8; before,
-       the response was flagged compressed and the replica could never decode it).  A batch is
-       announced with entries whose SequenceNumber field is 0, so it is skipped for every
-       session (only the catch-up delivers transactions).  Responses are queued per session
-       (5fc1d1b, at most sessionQueueLen); a full queue ends the session.          [push_of]
-   R1  A gap makes the replica send a NACK and — because STREAMING_ENTRIES -> STREAMING_ENTRIES
-       and APPLYING_ENTRIES -> STREAMING_ENTRIES are not legal transitions of its state tracker —
-       fall into ERROR and reconnect after its backoff with start = next expected number; the
-       retransmission goes to the stream it abandons.  A delivery that applies cleanly in the
-       STREAMING_ENTRIES handler ends in the same illegal transition (reconnect); one picked up
-       by the WAITING_FOR_DATA handler keeps the session.                    [deliver, c_stay]
-   R2  Receivers that timed out stay blocked in Recv on the stream and swallow later
-       messages (their result is dropped).  The first message of a fresh stream is received
-       by the waiting receiver.                                                     [c_lose]
-   R3  WALBatchApplier.ApplyEntries as repaired by 409828f.                  [apply_entries]
-   R4  A replica that is started again begins at sequence 1 with a fresh applier; its data
-       directory keeps what was applied.                                           [r_start]
-   The protocol of the pinned tree (before cb2d442, 7f7e08d, 2996cf8, f62340e) is kept in
-   ReplProtoBefore.v with the histories on which it did not converge. *)
-From KV Require Import Bytes Spec WalCodec.
+   Facts of the pinned code the old model was built from:
+   P1  The primary served ONE wal.WAL object, the one the engine had when the replication manager
+       started; rotateWAL (every flush) installed a fresh WAL without observers and closed the
+       old one: nothing pushed any more, GetNextSequence frozen, GetEntriesFrom -> ErrWALClosed.
+   P2  getWALEntriesFromSequence cut a response to the first 100 ENTRIES, also inside a
+       transaction.
+   P3  StartSequence = LastAckSequence = the replica's next expected number: pushes skipped
+       entries numbered <= StartSequence and the catch-up polled from LastAckSequence+1.
+   P4  pushed responses were flagged Compressed (ZSTD) although not compressed: never decodable.
+   R1-R4 as in ReplProto.v (the replica's code did not change). *)
+From KV Require Import Bytes Spec WalCodec MemtableProofs.
+From Coq Require Import Lia.
 Open Scope N_scope.
+
+Module BeforeFixes.
+
 
 (* ---------- log entries ---------- *)
 Definition entry := wentry.
@@ -61,12 +39,17 @@ Definition MaxFetch : nat := 100.
 (* ---------- primary ---------- *)
 Record pstate := mkP {
   p_log : list entry;      (* every entry ever logged, oldest first (log files are never retired) *)
-  p_next : N               (* next sequence number of the engine's WAL *)
+  p_next : N;              (* next sequence number of the engine's current WAL *)
+  p_obs_next : N;          (* nextSequence of the WAL object the replication primary holds *)
+  p_live : bool;           (* that object is still the engine's WAL (no rotation since start) *)
+  p_dirty : bool           (* the memtable holds data: a flush rotates the log *)
 }.
 
-Definition p_init : pstate := mkP [] 1.
+Definition p_init : pstate := mkP [] 1 1 true false.
 
-Definition cur (p : pstate) : N := p_next p - 1.
+Definition cur (p : pstate) : N := p_obs_next p - 1.
+
+Inductive fres := FOk (es : list entry) | FErr.
 
 Definition from_seq (from : N) (l : list entry) : list entry :=
   filter (fun e => from <=? eseq e) l.
@@ -85,9 +68,13 @@ Definition cut_at (k : nat) (l : list entry) : list entry :=
 
 Definition cut_fetch (l : list entry) : list entry := cut_at MaxFetch l.
 
-Definition fetch (p : pstate) (from : N) : list entry :=
-  if (cur p =? 0) || (cur p <? from) then []
-  else cut_fetch (from_seq from (p_log p)).
+(* the code before f62340e: a plain cut *)
+Definition cut_fetch_old (l : list entry) : list entry := firstn MaxFetch l.
+
+Definition fetch (p : pstate) (from : N) : fres :=
+  if (cur p =? 0) || (cur p <? from) then FOk []
+  else if p_live p then FOk (cut_fetch_old (from_seq from (p_log p)))
+  else FErr.
 
 (* a write of the primary's client *)
 Inductive wr :=
@@ -112,15 +99,17 @@ Definition is_noop (w : wr) : bool := match w with WMulti [] => true | _ => fals
 Definition p_write (p : pstate) (w : wr) : pstate :=
   if is_noop w then p else
   let s := p_next p in
-  mkP (p_log p ++ entries_of s w) (s + 1).
+  mkP (p_log p ++ entries_of s w) (s + 1)
+      (if p_live p then s + 1 else p_obs_next p) (p_live p) true.
+
+Definition p_flush (p : pstate) : pstate :=
+  if p_dirty p then mkP (p_log p) (p_next p) (p_obs_next p) false true else p.
 
 (* ---------- replica ---------- *)
 Inductive msg :=
-| MInit (es : list entry)      (* the initial entries of a session (first response of its stream) *)
-| MPush (es : list entry).     (* a pushed write *)
-
-(* sessionQueueLen of primary.go: responses buffered for one replica at most *)
-Definition MaxQueue : nat := 256.
+| MPlain (es : list entry)     (* initial / polled entries, sent uncompressed *)
+| MPush                        (* pushed batch, flagged compressed (P4): never decodable *)
+| MErr.                        (* the stream ended with an error *)
 
 Inductive rmode := RDown | RConnecting | RStreaming.
 
@@ -206,17 +195,18 @@ Definition set_inbox (r : rstate) (ib : list msg) : rstate :=
 Definition connect (p : pstate) (r : rstate) : rstate :=
   let s := r_exp r in
   let ib := match fetch p s with
-            | [] => []
-            | es => [MInit es]
+            | FOk [] => []
+            | FOk es => [MPlain es]
+            | FErr => [MErr]
             end in
   mkR RStreaming (r_link r) s ib (r_exp r) (r_gseq r) (r_gapp r) (r_store r).
 
-(* the periodic catch-up of StreamWAL (P3): from LastAckSequence+1 = start *)
-Definition poll (p : pstate) (r : rstate) : option (list entry) :=
-  if r_start r <=? cur p then
-    match fetch p (r_start r) with
-    | e :: es => Some (e :: es)
-    | [] => None
+(* the periodic catch-up of StreamWAL (P3) *)
+Definition poll (p : pstate) (r : rstate) : option msg :=
+  if r_start r <? cur p then
+    match fetch p (r_start r + 1) with
+    | FOk (e :: es) => Some (MPlain (e :: es))
+    | _ => None
     end
   else None.
 
@@ -228,10 +218,15 @@ Record choice := mkC {
 Definition good : choice := mkC false false.
 Definition is_bad (c : choice) : bool := c_lose c || c_stay c.
 
-Definition deliver (c : choice) (r : rstate) (es : list entry) : rstate :=
-  match apply_entries r es with
-  | AGap => disconnect r
-  | AOk r' => if c_stay c then r' else disconnect r'
+Definition deliver (c : choice) (r : rstate) (m : msg) : rstate :=
+  match m with
+  | MErr => disconnect r
+  | MPush => disconnect r
+  | MPlain es =>
+      match apply_entries r es with
+      | AGap => disconnect r
+      | AOk r' => if c_stay c then r' else disconnect r'
+      end
   end.
 
 Definition tick (c : choice) (p : pstate) (r : rstate) : rstate :=
@@ -240,25 +235,22 @@ Definition tick (c : choice) (p : pstate) (r : rstate) : rstate :=
   | RConnecting => if r_link r then connect p r else r
   | RStreaming =>
       match r_inbox r with
-      | MPush es :: rest =>
-          if c_lose c then set_inbox r rest else deliver c (set_inbox r rest) es
-      | MInit es :: rest => deliver c (set_inbox r rest) es
+      | MPush :: rest =>
+          if c_lose c then set_inbox r rest else deliver c (set_inbox r rest) MPush
+      | m :: rest => deliver c (set_inbox r rest) m
       | [] =>
           match poll p r with
-          | Some es => if c_lose c then r else deliver c r es
+          | Some m => if c_lose c then r else deliver c r m
           | None => r
           end
       end
   end.
 
-(* --- what a write of the primary does to a connected replica (P4) --- *)
-Definition push_of (s : N) (w : wr) (r : rstate) : rstate :=
+(* --- what a write / flush of the primary does to a connected replica (P4) --- *)
+Definition push_of (p : pstate) (s : N) (w : wr) (r : rstate) : rstate :=
   match r_mode r with
   | RStreaming =>
-      if r_start r <=? obs_seq s w then
-        if Nat.leb MaxQueue (length (r_inbox r)) then disconnect r      (* queue full: session ended *)
-        else set_inbox r (r_inbox r ++ [MPush (entries_of s w)])
-      else r
+      if p_live p && (r_start r <? obs_seq s w) then set_inbox r (r_inbox r ++ [MPush]) else r
   | _ => r
   end.
 
@@ -289,8 +281,8 @@ Definition sys := (pstate * rstate)%type.
 Definition step (s : sys) (e : event) : sys :=
   let (p, r) := s in
   match e with
-  | EWrite w => if is_noop w then s else (p_write p w, push_of (p_next p) w r)
-  | EFlush => s                                (* rotation is followed (P1): no protocol effect *)
+  | EWrite w => if is_noop w then s else (p_write p w, push_of p (p_next p) w r)
+  | EFlush => (p_flush p, r)
   | ETick c => (p, tick c p r)
   | EStart => (p, match r_mode r with RDown => r_start_again r | _ => r end)
   | EStop => (p, r_stop r)
@@ -348,3 +340,103 @@ Fixpoint settle (n : nat) (p : pstate) (r : rstate) : rstate :=
   | O => r
   | S n' => if idle p r then r else settle n' p (tick good p r)
   end.
+
+(* ---------- lemmas ---------- *)
+Lemma idle_fix : forall p r c, idle p r = true -> tick c p r = r.
+Proof.
+  intros p r c H. unfold idle, tick in *. destruct (r_mode r); [reflexivity| |].
+  - destruct (r_link r); [discriminate|reflexivity].
+  - destruct (r_inbox r); [|discriminate]. destruct (poll p r); [discriminate|reflexivity].
+Qed.
+
+Lemma idle_ticks : forall p cs r, idle p r = true -> ticks cs p r = r.
+Proof.
+  intros p cs. induction cs as [|c cs IH]; intros r H; [reflexivity|].
+  unfold ticks in *. cbn [fold_left]. rewrite idle_fix by exact H. apply IH. exact H.
+Qed.
+
+Lemma stuck_forever : forall p r, idle p r = true -> views_agree p r = false ->
+  forall cs, views_agree p (ticks cs p r) = false.
+Proof. intros p r Hid V cs. rewrite idle_ticks by exact Hid. exact V. Qed.
+
+Definition connected (r : rstate) : Prop := r_mode r <> RDown /\ r_link r = true.
+
+Definition put1 (k v : N) : event := EWrite (WSingle OpPut [k] [v]).
+Definition tx2 (k1 v1 k2 v2 : N) : event := EWrite (WMulti [(OpPut, [k1], [v1]); (OpPut, [k2], [v2])]).
+Definition tgood (n : nat) : list event := repeat (ETick good) n.
+
+(* D18a (repaired by cb2d442): the replica joins, two writes arrive, it has caught up; the primary
+   flushes (its log is rotated); two more writes.  The replica stayed where it was under every
+   schedule.  corpus/C14/fixed-rotation-after-join.case *)
+Definition w_rotation : list event :=
+  [EStart; ETick good; put1 97 1; put1 98 2] ++ tgood 6 ++ [EFlush; put1 99 3; put1 100 4].
+
+Theorem rotation_refuted :
+  let p := fst (run w_rotation sys_init) in
+  let r := snd (run w_rotation sys_init) in
+  connected r /\ forall cs, views_agree p (ticks cs p r) = false.
+Proof.
+  split; [split; [vm_compute; discriminate|vm_compute; reflexivity]|].
+  apply stuck_forever; vm_compute; reflexivity.
+Qed.
+
+(* D18a: a replica that joined after the rotation got nothing: every fetch failed on the closed
+   log, the stream ended with an error, the replica reconnected, for ever.
+   corpus/C14/fixed-rotation-before-join.case *)
+Definition w_join_after_rotation : list event :=
+  [put1 97 1; put1 98 2; EFlush; put1 99 3; EStart; ETick good; ETick good].
+
+Theorem join_after_rotation_refuted :
+  let p := fst (run w_join_after_rotation sys_init) in
+  let r := snd (run w_join_after_rotation sys_init) in
+  connected r /\ forall cs, views_agree p (ticks cs p r) = false.
+Proof.
+  cbv zeta. set (p := fst (run w_join_after_rotation sys_init)).
+  set (r := snd (run w_join_after_rotation sys_init)).
+  split; [split; [vm_compute; discriminate|vm_compute; reflexivity]|].
+  set (r2 := tick good p r).
+  assert (T1 : forall c, tick c p r = r2) by (intros [[|] [|]]; vm_compute; reflexivity).
+  assert (T2 : forall c, tick c p r2 = r) by (intros [[|] [|]]; vm_compute; reflexivity).
+  assert (V1 : views_agree p r = false) by (vm_compute; reflexivity).
+  assert (V2 : views_agree p r2 = false) by (vm_compute; reflexivity).
+  assert (H : forall cs, (views_agree p (ticks cs p r) = false) /\ (views_agree p (ticks cs p r2) = false)).
+  { induction cs as [|c cs [IH1 IH2]]; [split; assumption|].
+    unfold ticks in *. cbn [fold_left]. rewrite T1, T2. split; assumption. }
+  intros cs. apply H.
+Qed.
+
+(* D18d (repaired by 7f7e08d): the replica has joined an empty primary; one write.  Its number
+   equalled the session's start sequence: not pushed (<= StartSequence), not polled (the poll
+   started one above).  corpus/C14/fixed-last-write-single.case *)
+Definition w_last_write : list event := [EStart; ETick good; put1 107 118].
+
+Theorem last_write_refuted :
+  let p := fst (run w_last_write sys_init) in
+  let r := snd (run w_last_write sys_init) in
+  connected r /\ forall cs, views_agree p (ticks cs p r) = false.
+Proof.
+  split; [split; [vm_compute; discriminate|vm_compute; reflexivity]|].
+  apply stuck_forever; vm_compute; reflexivity.
+Qed.
+
+(* D18e (repaired by f62340e): 99 single writes, a transaction of two entries, one more write;
+   the replica joins afterwards.  The first response carried 100 entries and ended inside the
+   transaction; the replica applied them, moved on to the next number and never got the
+   transaction's second entry.  corpus/C14/fixed-tx-split-99-plus-2.case *)
+Definition puts (n : nat) : list event := map (fun i => put1 (N.of_nat i) 1) (seq 1 n).
+Definition w_tx_cut : list event :=
+  puts 99 ++ [tx2 200 1 201 2; put1 250 9; EStart] ++ tgood 8.
+
+Theorem tx_cut_refuted :
+  let p := fst (run w_tx_cut sys_init) in
+  let r := snd (run w_tx_cut sys_init) in
+  connected r /\
+  view_get (r_store r) [200] = Some [1] /\ view_get (r_store r) [201] = None /\
+  forall cs, views_agree p (ticks cs p r) = false.
+Proof.
+  split; [split; [vm_compute; discriminate|vm_compute; reflexivity]|].
+  split; [vm_compute; reflexivity|]. split; [vm_compute; reflexivity|].
+  apply stuck_forever; vm_compute; reflexivity.
+Qed.
+
+End BeforeFixes.
